@@ -34,7 +34,7 @@ SPEC = {
 
 KINDS = ['date', 'description', 'amount', 'location', 'ca', 'cb', 'skip']
 DATE_FORMATS = [None, '%d  %b  %y', '%d\t%b %y', '%d %b  %y', '%b %d,  %Y', '%b %d, %Y', '%A, %d %B %Y', '%A, %B %d, %Y', '%a, %d %b, %Y, %H:%M', '%d,%m,%Y', '%m/%d/%Y', '%Y-%m-%d', '%d.%m.%Y', '%d %b %y', '%m/%d/%y', '%Y%m%d', '%d-%b-%Y %H:%M']
-CUSTOM_NAMES = [('type', 'merchant'), ('Cardholder', 'memo'), ('txn_type', 'Payee2'), ('a', 'b')]
+CUSTOM_NAMES = [('type', 'merchant'), ('Cardholder', 'memo'), ('txn_type', 'Payee2'), ('a', 'b'), ('_memo', '_type'), ('_id', 'ref_'), ('__', 'x_')]
 
 
 def model(seq, template, names):
@@ -111,8 +111,13 @@ def check_arrangement(rec, seq, rnd, tvariant):
     elif tvariant == 'valid':
         sub = customs if rnd.random() < .6 else customs[:1]
         template = ' - '.join('{%s}' % c for c in sub)
+        if rnd.random() < .15:
+            template = '{{%s}} {{{%s}}}' % ('literal', sub[0])      # escaped braces around text and around a captured reference
     elif rnd.random() < .3 and customs[0].title() != customs[0]:
         template = '{%s}' % rnd.choice([customs[0].title(), customs[0].upper()])      # not the captured name: names in a template are taken literally
+    elif rnd.random() < .3:
+        # a reference to an uncaptured column written next to escaped (doubled) braces is still a reference
+        template = rnd.choice(['{{{nosuchcol}}}', '{%s} {{{nosuchcol}}}' % customs[0], '{nosuchcol}}}', '{{ {nosuchcol} }}'])
     else:
         template = '{%s} {nosuchcol}' % customs[0]
     if 'description' in seq and template and tvariant == 'valid':
